@@ -13,6 +13,7 @@ import (
 type queuedWorkSpace struct {
 	ws          *WorkSpace
 	wouldMining bool
+	epoch       uint64 // ws.reqEpoch at the time the request was issued
 }
 
 // newQueuedWorkSpace creates queuedWorkSpace from an existing workSpace.
@@ -21,6 +22,7 @@ func newQueuedWorkSpace(ws *WorkSpace, wouldMining bool) *queuedWorkSpace {
 	return &queuedWorkSpace{
 		ws:          ws,
 		wouldMining: wouldMining,
+		epoch:       ws.reqEpoch,
 	}
 }
 
@@ -122,6 +124,12 @@ func (sk *SpaceKeeper) spacePlotter() {
 		}
 		// Step 1: safely change state to plotting/mining
 		sk.stateLock.Lock()
+		if qws.epoch != ws.reqEpoch {
+			// the request was cancelled (stop/remove/delete) while it waited in the
+			// hand-off channel or after it had been popped from the queue
+			sk.stateLock.Unlock()
+			return
+		}
 		if _, ok := sk.workSpaceIndex[engine.Registered].Get(sid); ok {
 			changeState(engine.Registered, engine.Plotting)
 		} else {
